@@ -34,7 +34,7 @@ BRANCH_FEATURES = {
     'base': dict(Sn=50.0, Vn1f=1.1),          # Vn1 = 1.1 * bus kV, own MVA base
     'off+parallel': dict(parallel_off=True),
 }
-BUS_DEVICES = ['pq', 'pq2', 'pv', 'pv+pq', 'shunt+pq', 'pqoff+pq', 'shunt3+pq']
+BUS_DEVICES = ['pq', 'pq2', 'pv', 'pv+pq', 'shunt+pq', 'pqoff+pq', 'shunt3+pq', 'offbus+pq']
 
 
 def graphs(n):
@@ -78,7 +78,7 @@ def make_spec(n, edges, bfeat, bdev):
     for k in range(1, n):
         dev = bdev.get(k, 'pq')
         b = k + 1
-        if dev in ('pq', 'pq2', 'pv+pq', 'shunt+pq', 'pqoff+pq', 'shunt3+pq'):
+        if dev in ('pq', 'pq2', 'pv+pq', 'shunt+pq', 'pqoff+pq', 'shunt3+pq', 'offbus+pq'):
             spec['PQ'].append(dict(idx=f'P{b}', bus=b, p0=0.25 + 0.05 * k, q0=0.08, Vn=kv[k], vmax=1.6, vmin=0.4))
         if dev == 'pq2':
             spec['PQ'].append(dict(idx=f'P{b}b', bus=b, p0=0.1, q0=-0.03, Vn=kv[k], vmax=1.6, vmin=0.4))
@@ -91,6 +91,19 @@ def make_spec(n, edges, bfeat, bdev):
             spec['Shunt'].append(dict(idx=f'H{b}', bus=b, g=0.01, b=0.08, Vn=kv[k] * 1.05, Sn=80.0))
             spec['Shunt'].append(dict(idx=f'H{b}b', bus=b, g=0.0, b=0.05, Vn=kv[k], Sn=100.0))
             spec['Shunt'].append(dict(idx=f'H{b}o', bus=b, g=0.0, b=0.3, Vn=kv[k], Sn=100.0, u=0))
+        if dev == 'offbus+pq':
+            # an out-of-service bus next to bus b: it is the to-end of two branches, the from-end of two more, and carries
+            # two loads, a generator and a shunt - all of which are out of service with it
+            ob = 90 + b
+            spec['Bus'].append(dict(idx=ob, name=f'B{ob}', Vn=kv[k], u=0, vmax=1.6, vmin=0.4))
+            for tag, (f, t) in zip('abcd', ((b, ob), (b, ob), (ob, 1), (ob, b))):
+                spec['Line'].append(dict(idx=f'LO{b}{tag}', bus1=f, bus2=t, r=0.01, x=0.09, Sn=100.0,
+                                         Vn1=kv[k] if f != 1 else kv[0], Vn2=kv[k] if t != 1 else kv[0],
+                                         trans=1 if (kv[0] != kv[k] and 1 in (f, t)) else 0))
+            spec['PQ'].append(dict(idx=f'PO{b}a', bus=ob, p0=0.7, q0=0.2, Vn=kv[k], vmax=1.6, vmin=0.4))
+            spec['PQ'].append(dict(idx=f'PO{b}b', bus=ob, p0=0.4, q0=0.1, Vn=kv[k], vmax=1.6, vmin=0.4))
+            spec['PV'].append(dict(idx=f'GO{b}', bus=ob, p0=0.3, v0=1.03, Vn=kv[k], Sn=50.0, qmax=99.0, qmin=-99.0))
+            spec['Shunt'].append(dict(idx=f'HO{b}', bus=ob, g=0.0, b=0.2, Vn=kv[k], Sn=100.0))
         if dev == 'shunt+pq':
             spec['Shunt'].append(dict(idx=f'H{b}', bus=b, g=0.01, b=0.08, Vn=kv[k] * 1.05, Sn=80.0))
     return spec
@@ -133,13 +146,16 @@ def relabel(spec):
 
 def to_net(spec):
     net = Net(100.0)
+    off = {b['idx'] for b in spec['Bus'] if not b.get('u', 1)}
     for b in spec['Bus']:
-        net.bus[b['idx']] = b['Vn']
-    net.lines = [dict(l) for l in spec['Line']]
-    net.pq = [dict(d) for d in spec['PQ']]
-    net.pv = [dict(d) for d in spec['PV']]
-    net.slack = [dict(d) for d in spec['Slack']]
-    net.shunt = [dict(d) for d in spec['Shunt']]
+        if b['idx'] not in off:
+            net.bus[b['idx']] = b['Vn']
+    # a bus out of service takes every device attached to it out of service
+    net.lines = [dict(l) for l in spec['Line'] if l['bus1'] not in off and l['bus2'] not in off]
+    net.pq = [dict(d) for d in spec['PQ'] if d['bus'] not in off]
+    net.pv = [dict(d) for d in spec['PV'] if d['bus'] not in off]
+    net.slack = [dict(d) for d in spec['Slack'] if d['bus'] not in off]
+    net.shunt = [dict(d) for d in spec['Shunt'] if d['bus'] not in off]
     return net
 
 
@@ -276,8 +292,7 @@ class Flow(Part):
             out.bad(f'power_balance_violated:{feats}', f'bus {worst_b}: |dS| = {worst:.3e} (tol {tol:g}) computed from the input '
                     f'data with the reported voltages; features {feats}; variant {var}')
         # set-points
-        pvp = {d['bus']: d for d in spec['PV']}
-        for d in spec['PV']:
+        for d in net.pv:
             if abs(abs(V[d['bus']]) - d['v0']) > 1e-8:
                 out.bad('pv_bus_off_setpoint', f'bus {d["bus"]}: |V|={abs(V[d["bus"]]):.8f}, set-point {d["v0"]}')
             exp_p = d['p0']            # documented as a system-base quantity
@@ -288,7 +303,7 @@ class Flow(Part):
         if abs(np.angle(V[sl['bus']]) - sl['a0']) > 1e-9 or abs(abs(V[sl['bus']]) - sl['v0']) > 1e-9:
             out.bad('slack_off_reference', f'slack bus voltage {V[sl["bus"]]}')
         # agreement with the reference solution and with the default variant
-        order = [b['idx'] for b in spec['Bus']]
+        order = [b['idx'] for b in spec['Bus'] if b.get('u', 1)]
         dv = max(abs(V[b] - ref[b]) for b in order)
         if dv > 1e3 * tol:
             out.bad(f'differs_from_reference_solution:{feats}', f'max |V - V_ref| = {dv:.3e}')
@@ -296,7 +311,8 @@ class Flow(Part):
             key = json.dumps([case['n'], case['edges'], case['dev']])
             if key not in self.cache:
                 s0, sp0, ok0 = self.solve(spec0, 'default')
-                self.cache[key] = np.array([s0.Bus.v.v[i] * np.exp(1j * s0.Bus.a.v[i]) for i in range(s0.Bus.n)]) if ok0 else None
+                self.cache[key] = np.array([s0.Bus.v.v[i] * np.exp(1j * s0.Bus.a.v[i]) for i in range(s0.Bus.n)
+                                            if spec0['Bus'][i].get('u', 1)]) if ok0 else None
             base = self.cache[key]
             mine = np.array([V[b] for b in order])
             if base is not None:
